@@ -14,6 +14,10 @@ transforms:
   flip      `a < b` -> `b > a` (single-operator order comparisons)
   rename    every local variable of every function renamed (parameters, globals, imports, names rebound in nested
             scopes are left alone)
+  toformat  f"{x:10.4f}" -> "{:10.4f}".format(x)        (not part of `all`: the two directions undo each other)
+  tofstring "{:3}".format(a) -> f"{a:3}"
+  annotate  x = v -> x: object = v for simple names inside functions
+  temps     T = F(a, g(x)) -> _tmpN = g(x); T = F(a, _tmpN)  (a nested call hoisted into a temporary, evaluation order kept)
   all       everything above at once
 """
 import ast
@@ -82,6 +86,135 @@ class Flip(ast.NodeTransformer):
             pure = all(not isinstance(n, (ast.Call, ast.NamedExpr, ast.Await, ast.Yield)) for side in (node.left, node.comparators[0]) for n in ast.walk(side))
             if pure:
                 return ast.Compare(node.comparators[0], [self.M[type(node.ops[0])]()], [node.left])
+        return node
+
+
+class ToFormat(ast.NodeTransformer):
+    """f"{x:10.4f}{y!r}"  ->  "{:10.4f}{!r}".format(x, y)   (constant format specs only)."""
+    def visit_FormattedValue(self, node):
+        node.value = self.visit(node.value)     # the format spec (itself a JoinedStr) stays as it is
+        return node
+
+    def visit_JoinedStr(self, node):
+        self.generic_visit(node)
+        tmpl, args = "", []
+        for v in node.values:
+            if isinstance(v, ast.Constant) and isinstance(v.value, str):
+                tmpl += v.value.replace("{", "{{").replace("}", "}}")
+            elif isinstance(v, ast.FormattedValue):
+                spec = ""
+                if v.format_spec is not None:
+                    if not (isinstance(v.format_spec, ast.JoinedStr) and all(isinstance(x, ast.Constant) for x in v.format_spec.values)):
+                        return node
+                    spec = "".join(x.value for x in v.format_spec.values)
+                conv = {-1: "", 115: "!s", 114: "!r", 97: "!a"}[v.conversion]
+                tmpl += "{" + conv + (":" + spec if spec else "") + "}"
+                args.append(v.value)
+            else:
+                return node
+        return ast.copy_location(ast.Call(ast.Attribute(ast.Constant(tmpl), "format", ast.Load()), args, []), node)
+
+
+class ToFString(ast.NodeTransformer):
+    """"{:3} {: 20.12f}".format(a, b)  ->  f"{a:3} {b: 20.12f}"   (auto-numbered or indexed positional fields, no keywords)."""
+    def visit_Call(self, node):
+        self.generic_visit(node)
+        if not (isinstance(node.func, ast.Attribute) and node.func.attr == "format" and isinstance(node.func.value, ast.Constant)
+                and isinstance(node.func.value.value, str) and not node.keywords and not any(isinstance(a, ast.Starred) for a in node.args)):
+            return node
+        import string
+        vals, auto = [], 0
+        try:
+            for lit, field, spec, conv in string.Formatter().parse(node.func.value.value):
+                if lit:
+                    vals.append(ast.Constant(lit))
+                if field is None:
+                    continue
+                if field == "":
+                    idx, auto = auto, auto + 1
+                elif field.isdigit():
+                    idx = int(field)
+                else:
+                    return node
+                if idx >= len(node.args) or (spec and "{" in spec):
+                    return node
+                fs = ast.JoinedStr([ast.Constant(spec)]) if spec else None
+                vals.append(ast.FormattedValue(node.args[idx], {None: -1, "s": 115, "r": 114, "a": 97}[conv], fs))
+        except Exception:
+            return node
+        return ast.copy_location(ast.JoinedStr(vals), node)
+
+
+class Annotate(ast.NodeTransformer):
+    """x = v  ->  x: object = v   (simple names inside functions only)."""
+    def __init__(self):
+        self.depth = 0
+
+    def visit_FunctionDef(self, node):
+        if any(isinstance(n, (ast.Global, ast.Nonlocal)) for n in ast.walk(node)):
+            return node
+        self.depth += 1
+        self.generic_visit(node)
+        self.depth -= 1
+        return node
+
+    def visit_ClassDef(self, node):
+        d, self.depth = self.depth, 0
+        self.generic_visit(node)
+        self.depth = d
+        return node
+
+    def visit_Assign(self, node):
+        if self.depth and len(node.targets) == 1 and isinstance(node.targets[0], ast.Name):
+            return ast.copy_location(ast.AnnAssign(node.targets[0], ast.Name("object", ast.Load()), node.value, 1), node)
+        return node
+
+
+class Temps(ast.NodeTransformer):
+    """T = F(a, g(x), b)  ->  _tmpN = g(x); T = F(a, _tmpN, b)   when everything evaluated before g(x) is a plain name/constant."""
+    def __init__(self):
+        self.n = 0
+
+    def _simple(self, e):
+        return isinstance(e, (ast.Name, ast.Constant)) or (isinstance(e, ast.Attribute) and self._simple(e.value))
+
+    def _hoist(self, st, call):
+        if not isinstance(call, ast.Call) or not self._simple(call.func) or any(isinstance(a, ast.Starred) for a in call.args):
+            return None
+        for i, a in enumerate(call.args):
+            if isinstance(a, ast.Call) and all(self._simple(b) for b in call.args[:i]) and \
+                    not any(isinstance(x, (ast.Lambda, ast.ListComp, ast.GeneratorExp, ast.DictComp, ast.SetComp, ast.NamedExpr, ast.Await, ast.Yield)) for x in ast.walk(a)):
+                self.n += 1
+                name = f"_tmp{self.n}"
+                pre = ast.copy_location(ast.Assign([ast.Name(name, ast.Store())], a), st)
+                call.args[i] = ast.Name(name, ast.Load())
+                return pre
+            if not self._simple(a):
+                return None
+        return None
+
+    def _block(self, body):
+        out = []
+        for st in body:
+            st = self.visit(st)
+            if isinstance(st, (ast.Assign, ast.Expr, ast.Return)) and st.value is not None:
+                pre = self._hoist(st, st.value)
+                if pre is not None:
+                    out.append(pre)
+            out.append(st)
+        return out
+
+    def generic_visit(self, node):
+        for f in ("body", "orelse", "finalbody"):
+            b = getattr(node, f, None)
+            if isinstance(b, list) and b and isinstance(b[0], ast.stmt):
+                if isinstance(node, (ast.Module, ast.ClassDef)):
+                    setattr(node, f, [self.visit(x) for x in b])
+                else:
+                    setattr(node, f, self._block(b))
+        if isinstance(node, ast.Try):
+            for h in node.handlers:
+                h.body = self._block(h.body)
         return node
 
 
@@ -158,6 +291,14 @@ def transform_py(src, fname, which):
         plan = rename_plan(src, fname)
         # a function shadowing between siblings: be conservative when the key is ambiguous
         tree = Rename(plan).visit(tree)
+    if "toformat" in which:
+        tree = ToFormat().visit(tree)
+    if "tofstring" in which:
+        tree = ToFString().visit(tree)
+    if "temps" in which:
+        tree = Temps().visit(tree)
+    if "annotate" in which:
+        tree = Annotate().visit(tree)
     if "docs" in which:
         tree = Docs().visit(tree)
     if "reorder" in which:
@@ -250,11 +391,13 @@ def main():
         if a.startswith("--pids"):
             pids = a.split("=", 1)[1].split(",")
     keep = "--keep" in sys.argv
-    ALL = ["unparse", "shift", "docs", "reorder", "invert", "flip", "rename"]
+    ALL = ["unparse", "shift", "docs", "reorder", "invert", "flip", "rename", "annotate", "temps"]
     todo = args or ALL + ["all"]
     bad = 0
     for t in todo:
-        which = set(ALL) if t == "all" else {t}
+        # `all` = every rewrite that leaves each binding's own shape alone; `temps` reshapes bindings and is run on its own
+        # (renaming a local AND reshaping what it is bound from at once removes both handles a role has: anchors are lost)
+        which = (set(ALL) - {"temps"}) if t == "all" else set(t.split("+"))
         dst = f"/dev/shm/refuzz_{t}"
         shutil.rmtree(dst, ignore_errors=True)
         os.makedirs(dst)
